@@ -614,10 +614,10 @@ Proof. intros ->. cbn. auto. Qed.
 (** a change of the table that keeps every record up to queues, cache, flags and consumer position *)
 Definition soft (x y : actor) : Prop :=
   a_state y = a_state x /\ a_zombie y = a_zombie x /\ a_children y = a_children x /\ a_pend y = a_pend x /\
-  a_path y = a_path x /\ a_parent y = a_parent x /\ a_restarting y = a_restarting x.
+  a_path y = a_path x /\ a_parent y = a_parent x /\ a_restarting y = a_restarting x /\ a_spec y = a_spec x.
 Lemma soft_refl x : soft x x. Proof. repeat split. Qed.
 Lemma soft_trans x y z : soft x y -> soft y z -> soft x z.
-Proof. unfold soft. intros (A1 & A2 & A3 & A4 & A5 & A6 & A7) (B1 & B2 & B3 & B4 & B5 & B6 & B7). repeat split; congruence. Qed.
+Proof. unfold soft. intros (A1 & A2 & A3 & A4 & A5 & A6 & A7 & A8) (B1 & B2 & B3 & B4 & B5 & B6 & B7 & B8). repeat split; congruence. Qed.
 Lemma soft_lsame x y : lsame x y -> soft x y. Proof. intros ->. repeat split. Qed.
 Lemma linv_soft x y : soft x y -> linv x -> linv y.
 Proof. intros (A & B & C & D & _). apply linv_lc; auto. Qed.
